@@ -82,12 +82,23 @@ func c14nRunInBubble(t *testing.T, c c14nCase, res *vfResult) {
 			select {
 			case <-time.After(120 * time.Millisecond):
 			case <-ctx.Done():
+				return false
+			}
+		}
+		return true
+	}
+	slow2 := func(ctx context.Context, p peer.ID, m *Message) bool {
+		if c.Slow {
+			select {
+			case <-time.After(70 * time.Millisecond):
+			case <-ctx.Done():
+				return false
 			}
 		}
 		return true
 	}
 	for i := 0; i < c.N; i++ {
-		if err := s.start(i, c.Routers[i], WithDefaultValidator(slow)); err != nil {
+		if err := s.start(i, c.Routers[i], WithDefaultValidator(slow), WithDefaultValidator(slow2)); err != nil {
 			res.Inconclusive = err.Error()
 			return
 		}
